@@ -88,6 +88,8 @@ Definition sweep_Decoder_DecodeSInt32 := sw Z.eqb conv_id go_Decoder_DecodeSInt3
 Definition sweep_Decoder_DecodeSInt64 := sw Z.eqb conv_id go_Decoder_DecodeSInt64 (fun d => dec_scalar d KSInt64).
 Definition sweep_Decoder_DecodeFixed32 := sw Z.eqb conv_id go_Decoder_DecodeFixed32 (fun d => dec_scalar d KFixed32).
 Definition sweep_Decoder_DecodeFixed64 := sw Z.eqb conv_id go_Decoder_DecodeFixed64 (fun d => dec_scalar d KFixed64).
+Definition sweep_Decoder_DecodeFloat32 := sw Z.eqb conv_id go_Decoder_DecodeFloat32 (fun d => dec_scalar d KFloat).
+Definition sweep_Decoder_DecodeFloat64 := sw Z.eqb conv_id go_Decoder_DecodeFloat64 (fun d => dec_scalar d KDouble).
 Definition sweep_Decoder_decodeBytes := sw lneq conv_bytes go_Decoder_decodeBytes dec_bytes.
 Definition tws : list (Z * Z) := [(1,0);(1,2);(2,2);(1,1);(1,5);(16,0);(2,0);(3,3);(1,6);(1,-1);(536870911,5);(0,0);(2^62,2)].
 Definition sweep_Decoder_Skip := map (fun '(d, tw) => (show d, tw)) (filter (fun '(d, (t, w)) =>
@@ -105,6 +107,8 @@ Definition res_sweep_Decoder_DecodeSInt32 := Eval vm_compute in sweep_Decoder_De
 Definition res_sweep_Decoder_DecodeSInt64 := Eval vm_compute in sweep_Decoder_DecodeSInt64. Print res_sweep_Decoder_DecodeSInt64.
 Definition res_sweep_Decoder_DecodeFixed32 := Eval vm_compute in sweep_Decoder_DecodeFixed32. Print res_sweep_Decoder_DecodeFixed32.
 Definition res_sweep_Decoder_DecodeFixed64 := Eval vm_compute in sweep_Decoder_DecodeFixed64. Print res_sweep_Decoder_DecodeFixed64.
+Definition res_sweep_Decoder_DecodeFloat32 := Eval vm_compute in sweep_Decoder_DecodeFloat32. Print res_sweep_Decoder_DecodeFloat32.
+Definition res_sweep_Decoder_DecodeFloat64 := Eval vm_compute in sweep_Decoder_DecodeFloat64. Print res_sweep_Decoder_DecodeFloat64.
 Definition res_sweep_Decoder_decodeBytes := Eval vm_compute in sweep_Decoder_decodeBytes. Print res_sweep_Decoder_decodeBytes.
 Definition res_sweep_Decoder_Skip := Eval vm_compute in sweep_Decoder_Skip. Print res_sweep_Decoder_Skip.
 Definition res_sweep_Decoder_Seek := Eval vm_compute in sweep_Decoder_Seek. Print res_sweep_Decoder_Seek.
